@@ -13,9 +13,9 @@ use suiron_monitor::rng::*;
 use suiron_monitor::rt::*;
 
 struct Counts { programs: u64, skipped: u64, next_solution: u64, answers: u64, reasks: u64, cuts: u64, nots: u64, prints: u64, solve: u64, solve_all: u64,
-                parses: u64, parse_ok: u64, timers_started: u64, timer_fired_during_search: u64, timer_fired_after_search: u64, panics: u64 }
+                parses: u64, parse_ok: u64, timers_started: u64, timer_fired_during_search: u64, timer_fired_after_search: u64, panics: u64, kb_replaced_in_place: u64 }
 
-fn drive(c: &Case, cnt: &mut Counts, with_timer_api: bool) {
+fn drive(c: &Case, cnt: &mut Counts, with_timer_api: bool, slot: Option<&mut KnowledgeBase>) {
     // in-domain, terminating cases only (screened by the reference model)
     let refr = match rinterp::solve(&c.prog, &c.qname, &c.qargs, 3_000, 12) { Ok(r) => r, Err(_) => { cnt.skipped += 1; return; } };
     cnt.programs += 1;
@@ -23,10 +23,17 @@ fn drive(c: &Case, cnt: &mut Counts, with_timer_api: bool) {
     println!("MIRI-CASE {} {}", hash_str(&c.text()), if nontrivial { 1 } else { 0 });
     if cnt.programs <= 2 { println!("MIRI-SAMPLE {}", suiron_monitor::json::esc(&c.text())); }
     cnt.cuts += refr.stats.cuts; cnt.nots += refr.stats.not_true + refr.stats.not_false; cnt.prints += refr.stats.prints;
-    let kb = program_to_kb(&c.prog);
+    // Two ways an application holds its knowledge base: a fresh one per program, or one
+    // long-lived variable into which a newly built knowledge base is moved (the old one is
+    // dropped in place; the new one was filled elsewhere).
+    let local;
+    let kb: &KnowledgeBase = match slot {
+        Some(s) => { *s = program_to_kb(&c.prog); cnt.kb_replaced_in_place += 1; s }
+        None => { local = program_to_kb(&c.prog); &local }
+    };
     let r = std::panic::catch_unwind(std::panic::AssertUnwindSafe(|| {
         let query = Rc::new(query_goal(c));
-        let sn = make_base_node(Rc::clone(&query), &kb);
+        let sn = make_base_node(Rc::clone(&query), kb);
         let mut n = 0;
         loop {
             let s = next_solution(Rc::clone(&sn));
@@ -43,9 +50,9 @@ fn drive(c: &Case, cnt: &mut Counts, with_timer_api: bool) {
     if with_timer_api {
         // second and third query in the same process, through the timer-guarded API
         let r = std::panic::catch_unwind(std::panic::AssertUnwindSafe(|| {
-            let sn = make_base_node(Rc::new(query_goal(c)), &kb);
+            let sn = make_base_node(Rc::new(query_goal(c)), kb);
             let all = solve_all(sn);
-            let sn = make_base_node(Rc::new(query_goal(c)), &kb);
+            let sn = make_base_node(Rc::new(query_goal(c)), kb);
             let one = solve(Rc::clone(&sn));
             (all.len(), one.len())
         }));
@@ -94,7 +101,8 @@ fn main() {
     let (seed, shard, nshards, nprog, nstr, ntimer) = (a[0], a[1], a[2].max(1), a[3], a[4], a[5]);
     std::panic::set_hook(Box::new(|_| {}));
     let mut cnt = Counts { programs: 0, skipped: 0, next_solution: 0, answers: 0, reasks: 0, cuts: 0, nots: 0, prints: 0, solve: 0, solve_all: 0,
-                           parses: 0, parse_ok: 0, timers_started: 0, timer_fired_during_search: 0, timer_fired_after_search: 0, panics: 0 };
+                           parses: 0, parse_ok: 0, timers_started: 0, timer_fired_during_search: 0, timer_fired_after_search: 0, panics: 0, kb_replaced_in_place: 0 };
+    let mut held = KnowledgeBase::new();
     // cut at every body position: the bounded-exhaustive shapes, strided so that all shards
     // together walk the whole list
     let shapes = Shapes::new(Feat { cut: true, not: true, print: true, fail: true, ..Feat::default() }, 3, 2);
@@ -115,7 +123,10 @@ fn main() {
         } else {
             random_case(seed, 240, i * nshards + shard, Feat { cut: true, not: true, print: true, fail: true, anon: true, builtins: true })
         };
-        drive(&c, &mut cnt, i % 4 == 0);
+        // runs of programs share the long-lived variable, so that consecutive knowledge bases
+        // meet at one address; the others get a knowledge base of their own
+        let in_place = (i / 8) % 2 == 0;
+        drive(&c, &mut cnt, i % 4 == 0, if in_place { Some(&mut held) } else { None });
         i += 1;
         if i > nprog * 4 { break; }
     }
@@ -131,7 +142,7 @@ fn main() {
         }
     }
     timer_cases(&mut cnt, ntimer);
-    println!("MIRI-SUMMARY {{\"shard\": {}, \"programs\": {}, \"skipped\": {}, \"next_solution_calls\": {}, \"answers\": {}, \"reasks\": {}, \"cuts_executed\": {}, \"nots_executed\": {}, \"prints_executed\": {}, \"solve_calls\": {}, \"solve_all_calls\": {}, \"parser_calls\": {}, \"parser_ok\": {}, \"timers_started\": {}, \"timer_fired_during_search\": {}, \"timer_fired_after_search\": {}, \"caught_panics\": {}}}",
+    println!("MIRI-SUMMARY {{\"shard\": {}, \"programs\": {}, \"skipped\": {}, \"next_solution_calls\": {}, \"answers\": {}, \"reasks\": {}, \"cuts_executed\": {}, \"nots_executed\": {}, \"prints_executed\": {}, \"solve_calls\": {}, \"solve_all_calls\": {}, \"parser_calls\": {}, \"parser_ok\": {}, \"timers_started\": {}, \"timer_fired_during_search\": {}, \"timer_fired_after_search\": {}, \"caught_panics\": {}, \"kb_replaced_in_place\": {}}}",
              shard, cnt.programs, cnt.skipped, cnt.next_solution, cnt.answers, cnt.reasks, cnt.cuts, cnt.nots, cnt.prints, cnt.solve, cnt.solve_all, cnt.parses, cnt.parse_ok,
-             cnt.timers_started, cnt.timer_fired_during_search, cnt.timer_fired_after_search, cnt.panics);
+             cnt.timers_started, cnt.timer_fired_during_search, cnt.timer_fired_after_search, cnt.panics, cnt.kb_replaced_in_place);
 }
